@@ -580,6 +580,12 @@ def root_cause_sig(m):
     if offending is None:
         # no single child is responsible: name the first child of the most suspicious class
         kids = [c for _, c in _children_slots(m)]
+
+        def _elements(x):
+            return _elements(x[1]) + _elements(x[2]) if node_class(x) == "and" else [x]
+        if parent != "and":
+            # (a conjunction is transparent: its elements count as children, before the conjunction itself)
+            kids = [e for c in kids if node_class(c) == "and" for e in _elements(c)] + kids
         for cls in ("or", "not", "infix-hi", "prob", "clause", "and", "prefix", "neg-number", "list", "infix"):
             hit = [c for c in kids if node_class(c) == cls]
             if hit:
@@ -587,6 +593,51 @@ def root_cause_sig(m):
                 break
     if offending is None:
         return "rt:other:%s/?" % parent
+    if offending_slot is not None and node_class(offending) == "and":
+        # a conjunction is transparent: if replacing one element INSIDE it also repairs the round trip, that element
+        # is the offender (f((a, not a)) fails because of the negation, f((a,(b;c),d)) because of the disjunction)
+        def _inner(path_ast, rebuild):
+            for slot2, ch in _children_slots(path_ast):
+                if ch[0] in ("atom", "var") and ch[1] != "[]":
+                    continue
+                try:
+                    if roundtrip(build(rebuild(_replace(path_ast, slot2, ["atom", "z"])))) is None:
+                        if node_class(ch) == "and":
+                            deeper = _inner(ch, lambda x, s2=slot2, pa=path_ast, rb=rebuild: rb(_replace(pa, s2, x)))
+                            if deeper is not None:
+                                return deeper
+                        return ch
+                except Exception:  # noqa
+                    continue
+            return None
+        inner = _inner(offending, lambda x: _replace(m, offending_slot, x))
+        if inner is None:
+            # no single element: all elements of one class together (f((not a, not a)))
+            def _subst(x, cls):
+                if node_class(x) == cls:
+                    return ["atom", "z"]
+                if node_class(x) == "and":
+                    return ["and", _subst(x[1], cls), _subst(x[2], cls)]
+                return x
+
+            def _first(x, cls):
+                if node_class(x) == cls:
+                    return x
+                if node_class(x) == "and":
+                    return _first(x[1], cls) or _first(x[2], cls)
+                return None
+            for cls in ("or", "not", "infix-hi", "prob", "clause", "prefix", "neg-number"):
+                hit = _first(offending, cls)
+                if hit is None:
+                    continue
+                try:
+                    if roundtrip(build(_replace(m, offending_slot, _subst(offending, cls)))) is None:
+                        inner = hit
+                        break
+                except Exception:  # noqa
+                    continue
+        if inner is not None and node_class(inner) != "and":
+            offending = inner
     cc = node_class(offending)
     if m[0] == "bin" and offending[0] == "bin" and BIN[m[1]][0] == BIN[offending[1]][0]:
         cc = "infix-same-priority"
@@ -751,6 +802,21 @@ def _rt_enumerate(tier):
             yield {"ast": ["cmp", "f", [x, y]]}
             yield {"ast": ["list", [x], y]}
             yield {"ast": ["clause", ["atom", "h"], ["and", x, y]]}
+    # three-element conjunctions / disjunctions (both nestings, and one inside the other) with every operand
+    # position taken from a small operand set, bare and nested in an argument, a list and an infix operand
+    small = [["atom", "a"], ["var", "X"], ["int", -3], ["and", ["atom", "b"], ["atom", "c"]],
+             ["or", ["atom", "b"], ["atom", "c"]], ["not", "\\+", ["atom", "b"]], ["bin", "=", ["atom", "b"], ["atom", "c"]],
+             ["un", "-", ["atom", "b"]]]
+    for x in small:
+        for y in small:
+            for z in small:
+                for t in (["and", x, ["and", y, z]], ["and", ["and", x, y], z], ["or", x, ["or", y, z]],
+                          ["or", ["or", x, y], z], ["and", x, ["or", y, z]], ["or", x, ["and", y, z]]):
+                    yield {"ast": t}
+                    yield {"ast": ["cmp", "f", [t]]}
+                    yield {"ast": ["list", [t], ["var", "T"]]}
+                    yield {"ast": ["bin", "=", ["var", "Y"], t]}
+                    yield {"ast": ["clause", ["atom", "h"], ["cmp", "g", [t, ["atom", "e"]]]]}
 
 
 def _render_rt(case):
